@@ -24,6 +24,7 @@ fn gen_cfg(tier: Tier) -> GenCfg {
     cfg.w_restart = 5;
     cfg.w_delete = 5;
     cfg.w_len.huge = 0;
+    cfg.w_aligned_batch = 14;
     cfg.w_len.fileish = 8;
     cfg
 }
